@@ -191,6 +191,8 @@ impl BuildCase {
 pub enum BuildErr {
     TooBig,
     VersionTooSmall,
+    /// build() panicked (only produced by props::common::do_build; `build` reports panics as the outer Err)
+    Panicked,
 }
 
 pub struct Built {
